@@ -31,6 +31,7 @@ type Reader struct {
 	final FinalMode
 	buf   []byte
 	err   error
+	done  bool // Has Close completed successfully?
 }
 
 // NewReader creates a new Reader reading from the given reader.
@@ -99,7 +100,7 @@ func (mr *Reader) Read(buf []byte) (int, error) {
 // Close ends the meta stream.
 // The FinalMode encountered becomes valid after calling Close.
 func (mr *Reader) Close() error {
-	if mr.err == errClosed {
+	if mr.done {
 		return nil
 	}
 	if mr.err != nil && mr.err != io.EOF {
@@ -107,7 +108,7 @@ func (mr *Reader) Close() error {
 	}
 
 	mr.FinalMode = mr.final
-	mr.err = errClosed
+	mr.err, mr.done = errClosed, true
 	mr.rd = nil // Release reference to underlying Reader
 	return nil
 }
